@@ -22,8 +22,11 @@ THEOREMS = ["C10_created_then_readable", "C10_duplicate_conflicts", "C10_unknown
             "C10_page_is_slice", "C10_paging", "C10_mutators_commit", "C10_example_history"]
 VO = ["theories/props/C10.vo", "theories/model/HttpObs.vo"]
 
-IDS = {"sm": ["urn:sm/1+=", "grüße-ä", "https://ex.org/sm?a=b&c=>>>?"], "shell": ["urn:aas:1", ">>>???", "A"],
-       "cd": ["urn:cd:1", "urn:cd:2/ü"]}
+# identifiers: URL-hostile characters, non-ASCII, and pairs that differ only by Unicode normalisation (different
+# identifiers for a repository): 'u' + COMBINING DIAERESIS vs. U+00FC, ANGSTROM SIGN vs. U+00C5, a ligature vs. "fi"
+IDS = {"sm": ["urn:sm/1+=", "grüße-ä", "https://ex.org/sm?a=b&c=>>>?", "urn:u\u0308ber", "urn:\u00fcber"],
+       "shell": ["urn:aas:1", ">>>???", "A", "urn:\u212b", "urn:\u00c5"],
+       "cd": ["urn:cd:1", "urn:cd:2/ü", "urn:\ufb01n", "urn:fin"]}
 RULE = {"sm": ("/submodels", "submodel_id", "sm"), "shell": ("/shells", "aas_id", "aas"),
         "cd": ("/concept-descriptions", "concept_id", "cd")}
 TOPNAMES = {"p1": "P", "c1": "C", "f1": "F", "f5": "F", "b1": "B", "l1": "L", "p9": "P", "v1": "?", "v2": "?"}
@@ -56,8 +59,10 @@ def mk_elem(rng, name, depth=0):
     if cls == "F":
         return CS.F(name, rng.choice([None, None, "/aasx/x.txt", "http://ext/x"]), rng.randrange(2), tok)
     if cls == "B":
-        return CS.B(name, rng.choice([None, 1, 2]), rng.randrange(2), tok)
-    return CS.L(name, [CS.P(None, rng.randrange(1, 6)) for _ in range(rng.randrange(3))], tok)
+        return CS.B(name, rng.choice([None, 0, 0, 1, 2]), rng.randrange(2), tok)      # 0: a Blob of zero length
+    lt = rng.choice([0, 0, 1, 2])       # typing of the list; its items follow it
+    item = (lambda: CS.R(None, rng.randrange(1, 6))) if lt == 1 else (lambda: CS.P(None, rng.randrange(1, 6)))
+    return CS.L(name, [item() for _ in range(rng.randrange(4))], tok, ctype=lt)
 
 
 def mk_top(rng, kind, i):
@@ -112,6 +117,7 @@ def gen_request(rng):
         name = rng.choice(list(TOPNAMES)) if parent is None else {"c1": rng.choice(["p2", "c2", "v3"]), "c1.c2": "p3", "l1": None, "p1": "p2", "l1.abc": "p2"}[parent]
         e = dict(mk_elem(rng, name if name else "p1"), k="elem")
         if parent == "l1":
+            e = dict(CS.R(None, 2) if rng.random() < 0.3 else CS.P(None, rng.randrange(1, 6)), k="elem")
             e["ids"] = None if rng.random() < 0.8 else "p1"
         q = [("level", "core")] if rng.random() < 0.2 else []
         if parent is None:
@@ -192,21 +198,53 @@ def gen_attachment_history(rng, n):
     bytes under several names, the same name for different bytes, re-uploads after a delete"""
     J = (None, "json")
     sm = {"k": "sm", "id": "urn:att", "ids": "Att", "tok": 1, "quals": [],
-          "elems": [CS.F("f1", None), CS.F("f5", None), CS.F("f6", None, ctype=1), CS.B("b1", 1)]}
+          "elems": [CS.F("f1", None), CS.F("f5", None), CS.F("f6", None, ctype=1), CS.B("b1", 1), CS.B("b2", 0), CS.B("b3", None)]}
     att = "/submodels/<base64url:submodel_id>/submodel-elements/<id_short_path:id_shorts>/attachment"
-    out = [{"rule": "/submodels", "method": "POST", "accept": J, "query": [], "cls": "post-sm", "body": ("val", "json", sm)}]
+    out = [{"rule": "/submodels", "method": "POST", "accept": J, "query": [], "cls": "post-sm-attachments",
+            "body": ("val", rng.choice(FMT), sm)}]
     while len(out) < n:
-        p = rng.choice(["f1", "f1", "f5", "f5", "f6", "b1"])
+        p = rng.choice(["f1", "f1", "f5", "f5", "f6", "b1", "b2", "b3"])
         x = rng.random()
         rq = {"rule": att, "accept": rng.choice(ACC), "query": [], "body": ("none",), "sm": b64("urn:att"), "path": p}
         if x < 0.4:
             rq.update(method="PUT", cls="put-attachment",
-                      body=("upload", rng.choice(["/aasx/a.txt", "/aasx/a.txt", "/aasx/b.bin", "/c"]), (1 if p == "f6" else 0, rng.randrange(1, 4))))
+                      body=("upload", rng.choice(["/aasx/a.txt", "/aasx/a.txt", "/aasx/b.bin", "/c"]), (1 if p == "f6" else 0, rng.randrange(0, 4))))
         elif x < 0.7:
             rq.update(method="GET", cls="get-attachment")
         else:
             rq.update(method="DELETE", cls="delete-attachment")
         out.append(rq)
+    return out
+
+
+def gen_list_history(rng, n):
+    """successive replacements of one ordered list (directly, through its submodel, through a shell), growing and
+    shrinking, every item distinguishable; each followed by a read"""
+    J = (None, "json")
+    smid = "urn:lists"
+    items = lambda k: [CS.P(None, 10 + i) for i in range(k)]
+    size = rng.choice([0, 1, 1])
+    sm = lambda k: {"k": "sm", "id": smid, "ids": "Lists", "tok": 1, "quals": [], "elems": [CS.L("l1", items(k)), CS.P("p1", 1)]}
+    one = "/submodels/<base64url:submodel_id>"
+    el = one + "/submodel-elements/<id_short_path:id_shorts>"
+    out = [{"rule": "/submodels", "method": "POST", "accept": J, "query": [], "cls": "post-sm", "body": ("val", rng.choice(FMT), sm(size))},
+           {"rule": "/shells", "method": "POST", "accept": J, "query": [], "cls": "post-shell",
+            "body": ("val", "json", {"k": "shell", "id": "urn:lists:aas", "ids": "A", "tok": 1, "refs": [smid]})}]
+    while len(out) < n:
+        size = max(0, min(6, size + rng.choice([1, 1, 1, 2, -1, 0])))
+        how = rng.random()
+        fmt = rng.choice(FMT)
+        if how < 0.5:
+            out.append({"rule": el, "method": "PUT", "accept": J, "query": [], "cls": "put-list", "sm": b64(smid), "path": "l1",
+                        "body": ("val", fmt, dict(CS.L("l1", items(size)), k="elem"))})
+        elif how < 0.85:
+            out.append({"rule": one, "method": "PUT", "accept": J, "query": [], "cls": "put-sm-list", "sm": b64(smid),
+                        "body": ("val", fmt, sm(size))})
+        else:
+            out.append({"rule": "/shells/<base64url:aas_id>/submodels/<base64url:submodel_id>", "method": "PUT", "accept": J, "query": [],
+                        "cls": "put-via-shell-list", "aas": b64("urn:lists:aas"), "sm": b64(smid), "body": ("val", fmt, sm(size))})
+        out.append({"rule": el, "method": "GET", "accept": rng.choice(ACC), "query": [], "cls": "get-list", "sm": b64(smid),
+                    "path": "l1", "body": ("none",)})
     return out
 
 
@@ -241,7 +279,9 @@ def norm(a):
         d["quals"] = sorted(map(tuple, d["quals"]))
     for k in ("elems", "children"):
         if k in d:
-            d[k] = sorted((norm(c) for c in d[k]), key=lambda c: json.dumps(c, sort_keys=True, default=str))
+            d[k] = [norm(c) for c in d[k]]
+            if d.get("mt") != "SubmodelElementList":      # the items of a list are ordered
+                d[k].sort(key=lambda c: json.dumps(c, sort_keys=True, default=str))
     if "refs" in d:
         d["refs"] = sorted(d["refs"])
     d.pop("k", None)
@@ -271,7 +311,7 @@ def oracle_history(srv, backed, reqs, routes):
     srv.reset([], [], backed)
     ref = {}          # identifier -> (kind, abstract value or None when the content is not tracked)
     fails = []
-    uploads = {}      # attachment URL -> bytes uploaded there
+    uploads = {}      # attachment URL -> bytes uploaded there (or, for a Blob, the bytes it was created with)
     refs = {}         # shell identifier -> set of submodel identifiers it references
     has_get = {r for (r, ms, e) in routes if "GET" in ms}
     for k, req in enumerate(reqs):
@@ -416,6 +456,8 @@ def oracle_history(srv, backed, reqs, routes):
             if st != 200 or resp.data != uploads[url]:
                 fails.append((k, "attachment", f"GET of an attachment that was uploaded and not deleted -> {st}"
                                                f"{', other bytes than uploaded' if st == 200 else ''}", ep))
+        if ep == "delete_submodel_submodel_element_attachment" and url in uploads and st != 204:
+            fails.append((k, "attachment", f"DELETE of an attachment that was uploaded and not deleted -> {st}", ep))
         if ep == "delete_submodel_submodel_element_attachment" and st == 204:
             uploads.pop(url, None)
             for u2, want in list(uploads.items()):
@@ -428,6 +470,11 @@ def oracle_history(srv, backed, reqs, routes):
                         uploads.pop(u2, None)
         if req["method"] in ("PUT", "DELETE", "POST") and st < 300 and ep not in ("put_submodel_submodel_element_attachment", "delete_submodel_submodel_element_attachment"):
             uploads.clear()     # elements may have been replaced or removed: forget what was uploaded
+            if ep in ("post_submodel", "put_submodel") and val is not None and val["k"] == "sm" and not core and not CS.renames(req):
+                # ... but a submodel document says what its Blobs hold
+                for e0 in val["elems"]:
+                    if e0["mt"] == "Blob" and e0["val"] is not None and G.CTYPES[e0["ctype"]].isprintable():
+                        uploads[f"{G.BASE}/submodels/{b64(val['id'])}/submodel-elements/{e0['ids']}/attachment"] = G.CONTENTS[e0["val"][1]]
         if req["method"] == "DELETE" and st == 204 and req["rule"] in has_get:
             s2, _ = get_json(srv, url)
             if s2 != 404:
@@ -574,6 +621,10 @@ def run(chk):
         reqs = gen_history(rng, hl, backed)
         hist.append((backed, reqs))
         plans.append(([], [], backed, reqs, False))
+    for k in range(max(6, nh // 12)):
+        reqs = gen_list_history(rng, 16)
+        hist.append((k % 2 == 1, reqs))
+        plans.append(([], [], k % 2 == 1, reqs, False))
     for k in range(nh // 5):
         reqs = gen_attachment_history(rng, hl)
         hist.append((k % 2 == 1, reqs))
